@@ -8,7 +8,7 @@
    reply / disconnect events on front-end fe (appv2.NDNApp, app.NDNApp, Dispatcher). *)
 From NDN Require Import Base.Prelude Base.Text Model.TlvVar Model.Name Model.Trie Model.Dispatch Spec.DispatchSpec.
 From NDN Require Import Proofs.TrieProofs Proofs.DispatchProofs Proofs.DispatchHistory Proofs.DispatchTop
-  Proofs.TrieInverse Proofs.ConstsAppAgree Proofs.NameUriName Proofs.NameNormalize.
+  Proofs.TrieInverse Proofs.ConstsAppAgree Proofs.ReplyBridge Proofs.NameUriName Proofs.NameNormalize.
 From NDN Require Properties.C04Findings.
 Local Open Scope N_scope.
 
@@ -180,6 +180,13 @@ Print Assumptions C04_trie_longest_prefix.
 (* T1 tie re-established on this run *)
 Theorem C04_tie_default_lifetime : Generated.ConstsApp.DEFAULT_LIFETIME = DEFAULT_LIFETIME.
 Proof. exact default_lifetime_agree. Qed.
+
+(* T2 tie re-established on this run: the reply closure and the deadline computation as translated from
+   the source of appv2.NDNApp._on_interest are the model's *)
+Theorem C04_tie_reply_closure d t r : Generated.ReplyGen.reply_gen d t r = reply_closure d t r.
+Proof. exact (reply_gen_eq d t r). Qed.
+Theorem C04_tie_deadline life now : Generated.ReplyGen.deadline_gen life now = deadline_of FE_V2 life now.
+Proof. exact (deadline_gen_eq life now). Qed.
 
 (* non-vacuity: a history on the v2 front-end with nested and sibling prefixes (/, /a, /a/b, /a/b/c, /e),
    a refused duplicate, a detach, Interests before and after; every hypothesis above is met by it *)
